@@ -375,6 +375,13 @@ def expected_subtree(snap, pre, ki):
         for n in names:
             if n in pre["params"]:
                 out["params"][n] = pre["params"][n]
+        if "links" in snap:  # a kept dimension keeps whatever it holds at exit, link or number
+            out["links"] = dict(snap["links"])
+            for n in names:
+                if n in pre.get("links", {}):
+                    out["links"][n] = pre["links"][n]
+                else:
+                    out["links"].pop(n, None)
     out["children"] = [expected_subtree(a, b, ki) for a, b in zip(snap["children"], pre["children"])]
     return out
 
@@ -627,6 +634,8 @@ def _pkind(cls, name):
             return k
     if name in _DIMS:
         return "dimension"
+    if name in XNAMES:
+        return "same-name-on-another-type"
     if name in ("numberDensities", "temperatureInC", "height", "z", "ztop", "zbottom"):
         return name
     return "other"
@@ -817,7 +826,7 @@ def apply(s, op, check, viols, case):
         if check:
             bad("mutation-%s-raises-%s" % (name, type(e).__name__), "operation %s raises %r in a state produced by enter/exit" % (name, e))
         return "raised:" + type(e).__name__
-    if name == "W":
+    if name in ("W", "RL"):  # raw assignments (setLink is one): no cache is invalidated
         s.inc = True
     elif name == "CC":
         s.inc = False
@@ -1014,6 +1023,7 @@ def expand(item):
         "stack": [[fr["name"], fr["ki"], fr["i"]] for fr in s.stack],
         "flags": _flagobs(s),
         "snaps": [observe.digest(_norank(fr["snap"])) for fr in s.stack],
+        "csnaps": [observe.digest(fr["csnap"]) for fr in s.stack],  # the stashed caches come back at exit
     }
     ops = enabled_ops(s, hist)
     fl = None
@@ -1061,7 +1071,7 @@ def _flagobs(s):
     """Change-tracking masks that decide how a later exit treats kept parameters (hidden state
     with different futures: states differing here are not merged)."""
     out = []
-    for t in PTARGETS + ("C3",):
+    for t in PTARGETS + ("C3", "C4", "DU"):
         o = s.o[t]
         out.append(int(o.p.assigned))
         defined = {pd.name for pd in o.p.paramDefs}
@@ -1243,14 +1253,14 @@ def _quick_family():
     pairs = [("R", "R"), ("R", "K"), ("K", "A"), ("A", "B"), ("B", "C"), ("C", "C"), ("B", "R"), ("R", "C"), ("B", "B")]
     keeps = [(0, 0), (1, 2), (2, 1), (0, 1), (2, 0), (1, 1), (2, 2), (0, 2), (1, 0)]
     for j, ((a, c), (ka, kc)) in enumerate(zip(pairs, keeps)):
-        out.append((H, [[a, ka], [c, kc]], ["P", "D"] if j in (0, 1, 3, 4, 7) else ["P"]))
+        out.append((H, [[a, ka], [c, kc]], ["P", "D"] if j in (0, 1, 3, 4) else (["P", "S"] if j == 2 else ["P"])))
     # grids (pitch, offset, axial bounds) and caches; they do not depend on the keep-set (height is in set 2)
     out.append((Cq, [["R", 0], ["K", 0]], ["G", "H", "Q"]))
     out.append((Cq, [["K", 0], ["A", 2]], ["G", "H", "Q"]))
     out.append((H, [["A", 2], ["B", 0]], ["G", "H", "Q"]))
     out.append((H, [["B", 0], ["B", 0]], ["G", "H", "Q"]))
     out.append((H, [["B", 0], ["C", 0]], ["D", "D2", "Q"]))
-    out.append((H, [["A", 2], ["B", 2]], ["S", "L", "RL"]))
+    out.append((H, [["A", 2], ["B", 2]], ["L", "RL"]))
     out.append((Cq, [["R", 1], ["B", 0]], ["L", "Q"]))
     # cold and warm caches, raw dimension assignment followed by queries inside the scope
     out.append((H, [["B", 0], ["C", 0]], ["W", "CC", "Q"]))
